@@ -1,4 +1,6 @@
 #!/bin/sh
+# NOT USEFUL ON THIS MACHINE: ssovc already uses all 16 cores per check, so four streams only oversubscribe (load 120,
+# nothing finishes); kept for a larger machine. Use tools/regress.sh, or its parts one after another.
 # tools/regress_par.sh — tools/regress.sh in four parallel streams (logs under out/regress/): A every claimed check on
 # the current tree (the only stream that writes evidence/), B and C the must-fail corpora (two halves), D the no-alarm
 # corpus and all kept seeded changes. Prints a one-line verdict per stream.
